@@ -38,10 +38,20 @@ def promote_types(a, b):
 
 
 def result_type(*args):
-    cls = None
+    """numpy 2 (NEP 50): python int / float / bool scalars are weak - they only decide the *kind* of the result."""
+    cls, weak = None, []
     for a in args:
-        c = a.dtype.type if hasattr(a, "dtype") else dtype(a).type
+        if type(a) in (int, float, bool) or (isinstance(a, generic) and type(a)._py):
+            weak.append("f" if (type(a) is float or (isinstance(a, generic) and a._kind == "f")) else ("b" if type(a) is bool else "i"))
+            continue
+        c = a.dtype.type if (hasattr(a, "dtype") and not isinstance(a, type)) else dtype(a).type
         cls = c if cls is None else S.promote_cls(cls, c)
+    if cls is None:
+        return dtype(float if "f" in weak else (int if "i" in weak else bool))
+    if "f" in weak and cls._kind in "bi":
+        cls = S.float64
+    elif "i" in weak and cls._kind == "b":
+        cls = S.int64
     return dtype(cls)
 
 
@@ -842,8 +852,43 @@ def quantile(a, q, **kw):
     return percentile(a, asarray(q) * 100 if isinstance(q, (ndarray, list, tuple)) else q * 100)
 
 
-def unique(a):
-    raise ShimUnsupported("unique")
+def unique(a, **kw):
+    """Sorted distinct elements (forks over the order and over the equalities of neighbours)."""
+    if kw:
+        raise ShimUnsupported("unique with options")
+    flat = sort(asarray(a).flatten())
+    items = flat._items()
+    out = []
+    for x in items:
+        if out and builtins.bool(out[-1] == x):
+            continue
+        out.append(x)
+    return ndarray._from_list(out, (len(out),), flat.dtype)
+
+
+def swapaxes(a, axis1, axis2):
+    a = asarray(a)
+    perm = list(range(a.ndim))
+    perm[axis1], perm[axis2] = perm[axis2], perm[axis1]
+    return a.transpose(perm)
+
+
+def take(a, indices, axis=None, **kw):
+    a = asarray(a)
+    if axis is None:
+        return a.flatten()[indices]
+    key = [slice(None)] * a.ndim
+    key[axis] = indices if isinstance(indices, (int, slice)) or hasattr(indices, "_kind") else asarray(indices)
+    return a[tuple(key)]
+
+
+def fmod(a, b):
+    """C fmod: the result has the sign of the dividend (np.mod / % has the sign of the divisor)."""
+    a_, b_ = asarray(a), asarray(b)
+    r = a_ % b_
+    fix = (r != 0) & ((a_ < 0) != (b_ < 0))
+    out = where(fix, r - b_, r)
+    return out if (a_.ndim or b_.ndim) else out[()]
 
 
 # ----------------------------------------------------------------------------- histogramdd (numpy's contract)
